@@ -51,6 +51,11 @@ macro_rules! c06_family {
             routes.push(("parse(text)", <$N>::from_bytes(r.text().as_bytes()).expect("normalizing parser refused a valid raw text")));
             routes.push(("Dual::from_raw_form().as_normalized()", *<$D>::from_raw_form(&raw).as_normalized()));
             routes.push(("Dual::parse(text).to_normalized()", <$D>::from_bytes(r.text().as_bytes()).expect("dual parser refused a valid raw text").to_normalized()));
+            // a reused dual object: it held a value with many long runs before
+            let mut reused = <$D>::from_raw_form(&<$R as HashLike>::build(&HV { log: 2, bh1: [[5u8; 6], [6u8; 6], [7u8; 6], [8u8; 6]].concat().repeat(2), bh2: [[9u8; 5], [10u8; 5], [11u8; 5]].concat().repeat(2) }));
+            reused.init_from_raw_form(&raw);
+            routes.push(("reused Dual::init_from_raw_form().as_normalized()", *reused.as_normalized()));
+            let reused_flag = reused.is_normalized();
             routes.push(("normalize().normalize()", raw.normalize().normalize()));
             routes.push(("normalize().clone_normalized()", raw.normalize().clone_normalized()));
             // in-place forms keep the raw type
@@ -66,7 +71,7 @@ macro_rules! c06_family {
             dirty.normalize_in_place();
             let raw_routes: Vec<(&'static str, $R)> = vec![("normalize_in_place()", inplace), ("clone_normalized()", cloned), ("normalize_in_place() twice", twice), ("normalize_in_place() on reused object", dirty)];
             let raw_fresh = <$R as HashLike>::build(&want);
-            let flags = (raw.is_normalized(), fresh.is_normalized(), <$D>::from_raw_form(&raw).is_normalized(), inplace.is_normalized());
+            let flags = (raw.is_normalized(), fresh.is_normalized(), <$D>::from_raw_form(&raw).is_normalized(), inplace.is_normalized(), reused_flag);
             (routes, fresh, raw_routes, raw_fresh, flags)
         });
         match res {
@@ -87,9 +92,9 @@ macro_rules! c06_family {
                     });
                 }
                 let isn = r.is_normalized();
-                $l.eval(4);
-                $l.check(flags.0 == isn && flags.1 && flags.2 == isn && flags.3, "is_normalized", || {
-                    (sig("is_normalized"), format!("is_normalized(): raw={} normalized={} dual={} after-in-place={} but normalization {} {}", flags.0, flags.1, flags.2, flags.3, if isn { "leaves unchanged" } else { "changes" }, r.text()))
+                $l.eval(5);
+                $l.check(flags.0 == isn && flags.1 && flags.2 == isn && flags.3 && flags.4 == isn, "is_normalized", || {
+                    (sig("is_normalized"), format!("is_normalized(): raw={} normalized={} dual={} after-in-place={} reused-dual={} but normalization {} {}", flags.0, flags.1, flags.2, flags.3, flags.4, if isn { "leaves unchanged" } else { "changes" }, r.text()))
                 });
             }
         }
@@ -173,12 +178,57 @@ pub fn run_c06(o: &Opts) -> i32 {
         let hv = hashes::gen_hv(rng, 64, false);
         check_c06(l, &hv, rng);
     }));
+    // parsing text directly into a normalizing type when the RAW text exceeds the capacity but its
+    // run-collapse fits (default parser only; the strict parser refuses these by design)
+    if !cfg!(feature = "ffstrict") {
+        streams.push(Stream::new("overlong-raw-text-into-normalizing-type", o.n(40_000, 3_000_000), |_i, rng: &mut Rng, l: &mut Local| {
+            let bh1 = hashes::gen_long_bh(rng, 64);
+            let bh2 = hashes::gen_long_bh(rng, 32);
+            let raw = HV { log: hashes::gen_log(rng), bh1, bh2 };
+            let want = raw.normalized();
+            if want.bh1.len() > 64 || want.bh2.len() > 64 || raw.bh1.len().max(raw.bh2.len()) > 250 {
+                return;
+            }
+            let text = {
+                let mut t = format!("{}:", 3u64 << raw.log).into_bytes();
+                t.extend(hashes::syms_to_text(&raw.bh1));
+                t.push(b':');
+                t.extend(hashes::syms_to_text(&raw.bh2));
+                t
+            };
+            let sig = |w: &str| format!("C06|overlong|{}|{}", w, String::from_utf8_lossy(&text));
+            l.eval(1);
+            match guard(|| ssdeep::LongFuzzyHash::from_bytes(&text)) {
+                Ok(Ok(h)) => {
+                    let st = h.stored();
+                    l.check(st == want && h.is_valid(), "normalization-route", || (sig("long"), format!("parsing {} into LongFuzzyHash gives {} but collapsing runs to three gives {}", String::from_utf8_lossy(&text), st.text(), want.text())));
+                }
+                Ok(Err(e)) => l.violation("normalization-route", sig("long-rejected"), format!("LongFuzzyHash refuses {} ({:?}) although its run-collapse {} fits", String::from_utf8_lossy(&text), e, want.text())),
+                Err(p) => l.violation("totality", sig("long-panic"), format!("parsing {} panicked: {}", String::from_utf8_lossy(&text), p)),
+            }
+            if want.bh2.len() <= 32 {
+                l.eval(1);
+                match guard(|| ssdeep::FuzzyHash::from_bytes(&text)) {
+                    Ok(Ok(h)) => {
+                        let st = h.stored();
+                        l.check(st == want && h.is_valid(), "normalization-route", || (sig("short"), format!("parsing {} into FuzzyHash gives {} but collapsing runs to three gives {}", String::from_utf8_lossy(&text), st.text(), want.text())));
+                    }
+                    Ok(Err(e)) => l.violation("normalization-route", sig("short-rejected"), format!("FuzzyHash refuses {} ({:?}) although its run-collapse {} fits", String::from_utf8_lossy(&text), e, want.text())),
+                    Err(p) => l.violation("totality", sig("short-panic"), format!("parsing {} panicked: {}", String::from_utf8_lossy(&text), p)),
+                }
+            }
+            if raw.bh1.len() > 64 || raw.bh2.len() > 32 {
+                l.nt(raw.fp());
+                l.count("raw_longer_than_capacity", 1);
+            }
+        }));
+    }
     let rr = run_streams(o, streams);
     finish(
         o,
         rr,
         Report {
-            rule: "raw hashes: EVERY single-run layout (position x run length, 2080 layouts x symbols {0,1,63}, run ending at or before the capacity) in both block hashes and both capacities, every two-adjacent-run layout up to total length 20, random multi-run layouts (W3). For each raw hash all routes - normalize(), normalize_in_place() (also twice and on a reused object), clone_normalized(), From<Raw>, from_raw_form(), parsing the text into the normalizing type, the normalized part of a dual built from the object and parsed from text, normalizing twice - must equal the run-collapse oracle O4 by symbols, by full_eq against a freshly built object and by is_valid(); is_normalized() of raw, normalized and dual objects must equal (O4 leaves the string unchanged). evaluations = compared route results. Non-trivial = raw hash with a run longer than three; distinct by value.".into(),
+            rule: "raw hashes: EVERY single-run layout (position x run length, 2080 layouts x symbols {0,1,63}, run ending at or before the capacity) in both block hashes and both capacities, every two-adjacent-run layout up to total length 20, random multi-run layouts (W3), and texts whose raw block hashes are longer than the capacity (up to ~200) while their run-collapse fits, parsed directly into the normalizing types. For each raw hash all routes - normalize(), normalize_in_place() (also twice and on a reused object), clone_normalized(), From<Raw>, from_raw_form(), parsing the text into the normalizing type, the normalized part of a dual built from the object, parsed from text and re-initialised in a reused dual object, normalizing twice - must equal the run-collapse oracle O4 by symbols, by full_eq against a freshly built object and by is_valid(); is_normalized() of raw, normalized and dual objects must equal (O4 leaves the string unchanged). evaluations = compared route results. Non-trivial = raw hash with a run longer than three; distinct by value.".into(),
             assumptions: vec![],
             exhaustive: false,
             min_nontrivial: 5000 * o.scale_pct / 100,
